@@ -75,3 +75,23 @@ M("c02_end_token_not_in_follow_of_start", "C02", "ak/llparser.py",
 M("c02_is_ambiguous_gt2", "C02", "ak/llparser.py",
   "        return any(len(prods) != 1 for prods in self.parse_table.values())",
   "        return any(len(prods) > 2 for prods in self.parse_table.values())")
+
+# ---------------------------------------------------------------- C03
+M("c03_revert_processed_nullable", "C03", "ak/llparser.py",
+  "                    if cur_symbol in nullables:\n                        # symbols behind a nullable symbol must be checked too\n                        _next_symbol(stack)\n                    else:\n                        _next_prod(stack)\n                    continue",
+  "                    _next_prod(stack)\n                    continue")
+M("c03_prev_nullable_inverted", "C03", "ak/llparser.py",
+  "                if not prev_symbol_is_nullable:\n                    # do not check",
+  "                if prev_symbol_is_nullable and cur_symbol_id > 0:\n                    # do not check")
+M("c03_after_pop_always_next_prod", "C03", "ak/llparser.py",
+  "                        if cur_prod_symbol in nullables:\n                            _next_symbol(stack)\n                        else:\n                            _next_prod(stack)\n                    continue",
+  "                        _next_prod(stack)\n                    continue")
+M("c03_suffix_symbols_preseeded", "C03", "ak/llparser.py",
+  "        processed_symbols = set(self.terminals)\n        for symbol, prod_rules in sorted(self.prods_map.items()):",
+  "        processed_symbols = set(self.terminals) | set(self._suffix_symbols)\n        for symbol, prod_rules in sorted(self.prods_map.items()):")
+M("c03_only_start_reachable_checked", "C03", "ak/llparser.py",
+  "            if symbol in processed_symbols:\n                continue\n            # (symbol, prod_rules, cur_prod_id, cur_symbol_id)",
+  "            if symbol in processed_symbols or len(processed_symbols) > len(self.terminals):\n                continue\n            # (symbol, prod_rules, cur_prod_id, cur_symbol_id)")
+# (a mutant that ignores a match at the bottom of the DFS stack is equivalent: the cycle is found
+# one level deeper; one that only compares with the top of the stack makes the constructor itself
+# loop forever - the repo's test hangs - so neither is in the catalogue)
